@@ -21,10 +21,16 @@ def _ts(k):
 
 
 def _mkdict(lo, hi, ents, with_point=True):
-    tiers = [{"class": "IntervalTier", "name": "i", "xmin": lo, "xmax": hi, "entries": tuple(Interval(*e) for e in ents)}]
+    """the dictionary Textgrid.save builds: real tiers -> real _tgToDictionary"""
+    from praatio.data_classes.interval_tier import IntervalTier
+    from praatio.data_classes.point_tier import PointTier
+    from praatio.data_classes.textgrid import Textgrid, _tgToDictionary
+
+    tg = Textgrid(lo, hi)
+    tg.addTier(IntervalTier("i", [Interval(*e) for e in ents], lo, hi))
     if with_point:
-        tiers.append({"class": "TextTier", "name": "p", "xmin": lo, "xmax": hi, "entries": ((lo, "q"),)})
-    return {"xmin": lo, "xmax": hi, "tiers": tiers}
+        tg.addTier(PointTier("p", [(lo, "q")], lo, hi))
+    return _tgToDictionary(tg)
 
 
 def check_saved(ents, res, fmin, fmax, thr):
@@ -129,10 +135,10 @@ def ob_noblanks(k, timeout):
     def body(hi, thr, omin, omax, *ts):
         ents = [(ts[2 * i], ts[2 * i + 1], LABELS[i]) for i in range(k)]
         for mn, mx in ((None, None), (omin, omax)):
-            d = _mkdict(0.0, hi, list(reversed(ents)))
+            d = _mkdict(0.0, hi, ents)
             out = textgrid_io._prepTgForSaving(d, False, mn, mx, thr)
             if [tuple(e) for e in out["tiers"][0]["entries"]] != ents:
-                return "blank filling off but entries not written verbatim (sorted)"
+                return "blank filling off but entries not written verbatim"
             if mn is not None and (out["xmin"], out["xmax"]) != (mn, mx):
                 return "override did not become the file's span"
         return True
@@ -146,7 +152,8 @@ def obligations(tier):
         for tk in ("none", "sym"):
             for k in (2, 3):
                 obs.append(ob_fill(k, tk, 400))
-                obs.append(ob_override(k, tk, 400))
+                if k == 2 or tk == "none":
+                    obs.append(ob_override(k, tk, 400))
         obs.append(ob_fill(0, "sym", 30))
         obs.append(ob_override(0, "sym", 30))
         obs.append(ob_noblanks(2, 60))
